@@ -55,7 +55,7 @@ Next == \E e \in Events(st) :
 Spec == Init /\ [][Next]_vars
 View == st
 Emit ==
-  \/ ~last'.ok /\ Cardinality(last'.failed) > FailCap
+  \/ ~last'.ok /\ Cardinality(last'.failed) > FailCap /\ TLCGet("level") % 5 # 0     \* rejected transitions that fail more than FailCap guards are emitted from every fifth BFS level only
   \/ PrintT("EDGE " \o ToJson([from |-> st, e |-> last'.e, ok |-> last'.ok, resp |-> last'.resp,
                                 failed |-> last'.failed, to |-> IF last'.ok THEN st' ELSE [same |-> TRUE]]))
 
